@@ -372,9 +372,13 @@ impl Scenario for LifecycleScenario {
                                     continue;
                                 }
                                 let r = world.nodes[hh][ss].app.complete_query(QueryId).await;
-                                if r.is_ok() {
+                                // the HTTP layer forgets the node's record streams after every complete request; here that is
+                                // done whenever the request got past the state check (refused requests touch nothing)
+                                if r.is_ok() || matches!(m[hh][ss], R | C | X) {
                                     for a in &affected {
-                                        world.reset_node(hh, *a);
+                                        if r.is_ok() || *a == ss {
+                                            world.reset_node(hh, *a);
+                                        }
                                     }
                                 }
                                 let mine = m[hh][ss];
